@@ -309,9 +309,12 @@ func (m *Model) eval(e Expr) (Val, bool) {
 			m.store(s, v, fr)
 			key := k
 			if i < len(x.Quoted) && x.Quoted[i] {
-				if strings.Contains(k, "\\") {
-					m.tag("pinned:objkey-escape")
+				// a quoted key is a string literal (property C13): the same escapes, the same error
+				ks, ok := litString(k)
+				if !ok {
+					m.fail("bad escape")
 				}
+				key = ks
 			}
 			if old, ok := o.M[key]; ok {
 				old.V = s.V
@@ -467,17 +470,21 @@ func (m *Model) evalBinary(x *Binary) Val {
 		return mNum(m.checkFinite(m.num(l) / d))
 	case "%":
 		a, b := m.num(l), m.num(r)
-		if math.Abs(a) >= 9.2e18 || math.Abs(b) >= 9.2e18 || math.IsNaN(a) || math.IsNaN(b) {
-			m.tag("pinned:mod-huge")
+		if math.IsNaN(a) || math.IsNaN(b) || math.IsInf(a, 0) || math.IsInf(b, 0) {
+			m.tag("pinned:mod-nan")
 		}
 		A, B := math.Trunc(a), math.Trunc(b)
 		if B == 0 {
 			m.fail("divide by zero")
 		}
-		if m.tags["pinned:mod-huge"] {
+		if m.tags["pinned:mod-nan"] {
 			return mNum(0)
 		}
-		res := float64(int64(A) % int64(B))
+		// the remainder of the truncated operands, sign of the dividend; exact on doubles of any size
+		res := math.Mod(A, B)
+		if res == 0 {
+			res = 0
+		}
 		return mNum(res)
 	case "~", "!~":
 		subj := m.str(l)
@@ -817,10 +824,7 @@ func (m *Model) childSlot(bs *Slot, key Val) *Slot {
 		if s, ok := b.O.M[k]; ok {
 			return s
 		}
-		if ms, ok := methodsOf[KObj]; ok && ms[k] {
-			// storing over a method name: the prototype is consulted first today [P]
-			m.tag("pinned:store-method-name")
-		}
+		// (a method name that is not an own member is missing like any other name: the store creates it)
 		s := &Slot{V: mNull(), absent: true}
 		b.O.Keys = append(b.O.Keys, k)
 		b.O.M[k] = s
@@ -977,8 +981,7 @@ func (m *Model) matchPat(p Expr, v Val, binds map[string]Val) bool {
 	case *NumLit, *StrLit, *BoolLit, *NullLit:
 		lit, _ := m.eval(x)
 		if v.K == KUnset {
-			m.tag("pinned:match-unset")
-			return false
+			return false // v == literal is false for an unset v, whatever the literal
 		}
 		if v.K == KArr || v.K == KObj {
 			if lit.K == KNull {
@@ -1342,23 +1345,26 @@ func (m *Model) runSchedule(inputs []MInput, selectors []Expr) {
 	for _, in := range inputs {
 		for _, gv := range in.Values {
 			m.frames[0].vars["$file"] = &Slot{V: mStr(in.Name)}
-			var roots []*Slot
-			if len(selectors) > 0 {
-				for _, sel := range selectors {
-					roots = append(roots, m.evalSelector(sel, gv))
-				}
-			} else {
-				roots = append(roots, &Slot{V: fromGo(gv)})
+			passes := len(selectors)
+			if passes == 0 {
+				passes = 1
 			}
-			for _, root := range roots {
+			for pass := 0; pass < passes; pass++ {
+				// each selector in the order given: it is evaluated when its turn comes, after the rules of the one before
+				var root *Slot
+				if len(selectors) > 0 {
+					root = m.evalSelector(selectors[pass], gv)
+				} else {
+					root = &Slot{V: fromGo(gv)}
+				}
 				selected := root.V
+				m.root = root // the root from here on, also when a BEGINFILE rule exits
 				for _, r := range beginFile {
 					m.ruleRoot = root
 					if m.runBody("BEGINFILE", r.Body) {
 						return
 					}
 				}
-				m.root = root
 				if m.runPattern(pattern, root) {
 					return
 				}
